@@ -136,10 +136,12 @@ def check_files(doc, text, case):
         return out
     import collections
 
-    model_strings = set(all_string_values(doc))
-    want = [x for x in dict_strings(d_loads) if x in model_strings]   # what loads kept (a keyword given twice keeps its last value)
+    # the model's string values, as far as loads kept them (a keyword given twice keeps its last value); counted
+    # per value, so that an enumerated word spelled like a string value (TRANSPARENCY alpha beside CLASSGROUP
+    # "alpha"), which may legitimately come back upper-cased, is not taken for a string
+    want = collections.Counter(all_string_values(doc)) & collections.Counter(dict_strings(d_loads))
     got = dict_strings(d_back)
-    missing = collections.Counter(want) - collections.Counter(got)
+    missing = want - collections.Counter(got)
     if missing:
         s0 = next(iter(missing))
         out.append(Discrepancy("save_open:string_lost", f"string value {s0!r:.60} did not survive save -> open", case))
